@@ -31,6 +31,10 @@ CONSTANTS N, P, M, Mx, V,
           StartMode, AlphaMode, EarlyPts, PointRow, PruneMode,
           Emit, NSlices, Slice
 
+\* the pruning margin: "sum" = alpha + sum of the per-component terms (the code); a module-level switch for the
+\* negative configuration "max" (alpha + largest term: prunes starts that are still needed when P >= 2)
+MarginIsMax == PruneMode = "delayed_maxmargin"
+
 ASSUME M >= 2 /\ Mx >= M /\ N >= 1 /\ P >= 1
 
 Iv     == Intervals(N)
@@ -40,7 +44,7 @@ Cmp    == Comp(P)
 VARIABLES S, pen, t, opt, astart, starts, pend, pc, bi, coll, pts, evlog, u, d
 vars == <<S, pen, t, opt, astart, starts, pend, pc, bi, coll, pts, evlog, u, d>>
 
-Delay == IF PruneMode = "delayed" THEN M - 1 ELSE 0
+Delay == IF PruneMode \in {"delayed", "delayed_maxmargin"} THEN M - 1 ELSE 0
 
 (* ------------------------- table construction ------------------------- *)
 Build(uu, dd) ==
